@@ -60,6 +60,15 @@ def _imports():
             self.used = {True: 0, False: 0}
             self.kicks = 0
             self.walk = None
+            self.plan = None
+
+        def script_wf(self, jumps, ext_back, ext_forw):
+            """wire fencing: per jump (kick, back, forw), then the extender's two streams"""
+            self.plan = {"jumps": jumps, "eb": list(ext_back), "ef": list(ext_forw)}
+            self.jump, self.phase = -1, "jump"
+            self.ran_out_ext = False
+            self.used = {True: 0, False: 0}
+            self.kicks = 0
 
         def script(self, back, forw, kick, dek=0.0):
             self.back, self.forw, self.dek = list(back), list(forw), dek
@@ -69,6 +78,11 @@ def _imports():
 
         def modify_velocities(self, system, vel_settings):
             self.kicks += 1
+            if self.plan is not None:
+                self.jump += 1
+                if self.jump >= len(self.plan["jumps"]):
+                    raise BadDraw()
+                self.order_function.kick = float(self.plan["jumps"][self.jump][0])
             system.config = (os.path.join(self.exe_dir, "genvel.xyz"), 0)
             system.ekin = 1.0
             return self.dek, 1.0
@@ -96,6 +110,12 @@ def _imports():
                 for _ in range((path.maxlen or 0) + 2):
                     x = x + rng.choice(steps)
                     seq.append(x)
+            elif self.plan is not None:
+                if self.phase == "ext":
+                    seq = self.plan["eb"] if reverse else self.plan["ef"]
+                else:
+                    seq = self.plan["jumps"][self.jump][1 if reverse else 2]
+                seq = [float(x) for x in seq]
             else:
                 seq = self.back if reverse else self.forw
             for k, op in enumerate([system.order[0]] + seq):
@@ -105,6 +125,10 @@ def _imports():
                 status, success, stop, _ = self.add_to_path(path, pp, left, right)
                 if stop:
                     break
+            else:
+                # the scripted "MD program" ended before add_to_path said stop (a real engine runs maxlen steps)
+                if self.plan is not None and self.phase == "ext":
+                    self.ran_out_ext = True
             return success, status
 
     class ScriptedGen:
@@ -740,7 +764,12 @@ def wf_judge(case, res):
     acc, status, ops = res["acc"], res["status"], res["ops"]
     if (acc is True) != (status == "ACC") or acc not in (True, False):
         bad.append(("C09:wf:accept-status-mismatch", f"accept={acc!r} status={status!r}"))
-    if acc:
+    if acc and res.get("ran_out_ext"):
+        # engine contract broken by the script: an extender stream ended before add_to_path said stop. The
+        # extender ignores the engine's success flag, so such a path is accepted with an end inside — recorded
+        # as an observation by the caller, not judged
+        pass
+    elif acc:
         why = []
         if len(ops) < 3:
             why.append(f"{len(ops)} frames")
@@ -771,6 +800,204 @@ def wf_judge(case, res):
         if not res["file_same"]:
             bad.append(("C09:wf:old-files-touched-on-reject", f"status {status}"))
     return bad
+
+
+# --------------------------------------------------------------------------- wire fencing: model tie
+class WfGen:
+    """scripted rgen for wire_fencing: random() → ξ of the segment pick; the k-th integers(lo, hi) → an
+    admissible index derived from the k-th raw number (recorded, then given to the model)"""
+
+    def __init__(self, xi, raws):
+        self.xi, self.raws, self.log, self.idx = xi, raws, [], []
+        import numpy as np
+        self._np = np.random.default_rng(0)
+
+    def integers(self, lo, hi):
+        self.log.append(f"int:{lo}:{hi}")
+        self._np.integers(lo, hi)
+        k = len(self.idx)
+        v = lo + self.raws[k % len(self.raws)] % (hi - lo)
+        self.idx.append(v)
+        return v
+
+    def random(self):
+        self.log.append("random")
+        return self.xi
+
+    def __getattr__(self, name):
+        raise AssertionError(f"unexpected draw request {name}")
+
+
+def wf_pick_ok(case):
+    """the float comparison `sum_frames / n_frames >= ξ` agrees with the exact one for every segment"""
+    E = _imports()
+    l, m, r = case["intf"]
+    cap = r if case["cap"] is None else case["cap"]
+    xi = Fraction(case["xi"])
+    p = mk_old(case)
+    try:
+        n, _ = E["tis"].wirefence_weight_and_pick(p, float(m), float(cap))
+    except Exception:  # noqa: BLE001
+        return True
+    if not n:
+        return True
+    return all((c / n >= float(xi)) == (Fraction(c, n) >= xi) for c in range(1, n + 1))
+
+
+def run_real_wf_scripted(case):
+    E = _imports()
+    tis, eng = E["tis"], E["engine"]
+    E["enginebase"].counter.count = -1
+    old = mk_old(case)
+    l, m, r = case["intf"]
+    gen = WfGen(float(Fraction(case["xi"])), case["raws"])
+    eng.script_wf([(j["kick"], j["back"], j["forw"]) for j in case["jumps"]], case["eb"], case["ef"])
+    tis_set = {"maxlength": case["ML"]}
+    if case["nj"] is not None:
+        tis_set["n_jumps"] = case["nj"]
+    if case["cap"] is not None:
+        tis_set["interface_cap"] = float(case["cap"])
+    ens = {"interfaces": (float(l), float(m), float(r)), "tis_set": tis_set, "rgen": gen, "ens_name": "002",
+           "mc_move": "wf", "start_cond": sc_tuple(case["sce"])}
+    orig_ext = tis.extender
+
+    def ext_wrapper(*a, **k):
+        eng.phase = "ext"
+        return orig_ext(*a, **k)
+    tis.extender = ext_wrapper
+    before = snapshot(old)
+    with open(E["oldfile"], "rb") as f:
+        bytes_before = f.read()
+    _AUDIT.update(on=True, events=[], watch=E["oldfile"])
+    res = {"status": None}
+    try:
+        acc, trial, status = tis.wire_fencing(ens, old, eng, start_cond=sc_tuple(case["sc"]))
+        ops = [to_int(s.order[0]) for s in trial.phasepoints]
+        after = snapshot(old)
+        rewritten = after != before
+        g = trial.generated
+        if trial is old and not rewritten:
+            gtxt = "0 0"
+        elif isinstance(g, tuple) and len(g) == 4 and g[0] == "wf" and g[1] == 9000:
+            gtxt = f"{g[2]} {g[3]}"
+        else:
+            gtxt = f"badgen:{g!r}"
+        flag = "1" if acc is True else ("0" if acc is False else f"badacc:{acc!r}")
+        res.update(acc=acc, status=status, ops=ops, trial=trial, status_attr=trial.status,
+                   line=f"ok {flag} {status} {gtxt} {trial.time_origin} {1 if trial is old else 0} "
+                        f"{1 if rewritten else 0} | {lst(ops)} | {lst(gen.log)}")
+        if acc:
+            res["cv"] = tis.calc_cv_vector(trial, [float(l), float(m), float(r)], ["sh", "sh", "wf"],
+                                           cap=None if case["cap"] is None else float(case["cap"]))
+    except BadDraw:
+        res.update(status="err:baddraw", line="err:baddraw", exc=True)
+    except Exception as e:  # noqa: BLE001
+        res.update(status=err_kind(e), line=err_kind(e), exc=True)
+    finally:
+        _AUDIT["on"] = False
+        tis.extender = orig_ext
+        eng.plan = None
+    after = snapshot(old)
+    res["frames_same"] = frames_only(after) == frames_only(before)
+    res["attr_changed"] = after != before and res["frames_same"]
+    res["allowmax_set"] = tis_set.get("allowmaxlength") is True
+    res["ran_out_ext"] = eng.ran_out_ext
+    res["idx"] = list(gen.idx)
+    with open(E["oldfile"], "rb") as f:
+        res["file_same"] = f.read() == bytes_before and not _AUDIT["events"]
+    return res
+
+
+def wf_model_line(case, res, variant="r"):
+    l, m, r = case["intf"]
+    idx = res["idx"] + [1] * len(case["jumps"])
+    js = " ".join(f"{idx[k]} {j['kick']} {lst(j['back'])} {lst(j['forw'])}" for k, j in enumerate(case["jumps"]))
+    nj = 2 if case["nj"] is None else case["nj"]
+    return (f"wf {variant} {case['oto']} {l} {m} {r} {'-' if case['cap'] is None else case['cap']} {case['ML']} {nj} "
+            f"{case['sc']} {case['sce']} {frac_token(Fraction(case['xi']))} {lst(case['old'])} {lst(case['eb'])} "
+            f"{lst(case['ef'])} {len(case['jumps'])} {js}").rstrip()
+
+
+def gen_wf_cases(ctx):
+    rng = ctx.rng
+    n = 6000 if ctx.quick else 60000
+    out = []
+    while len(out) < n:
+        l = 0
+        m = rng.choice((0, 1, 1, 2))
+        r = m + rng.randint(1, 4)
+        cap = rng.choice((None, None, None, r, rng.randint(m + 1, r), rng.randint(m + 1, r)))
+        if rng.random() < 0.02:
+            cap = rng.choice((m, m - 1, -1))
+        intf = [l, m, r]
+        if rng.random() < 0.01:
+            intf = [r, m, l]
+        c = r if cap is None else cap
+        L = rng.randint(2, 14)
+        x = rng.choice((-1, -1, -1, r + 1, rng.randint(-1, r + 1)))
+        old = []
+        for _ in range(L):
+            old.append(x)
+            x = max(-1, min(r + 1, x + rng.choice((-2, -1, -1, 0, 1, 1, 1, 2))))
+        ML = rng.choice((100, 100, rng.randint(3, 14), rng.randint(0, 30)))
+        nj = rng.choice((None, 1, 2, 2, 3, 0))
+        sc = rng.choice(("L", "L", "L", "R", "LR"))
+        sce = sc if rng.random() < 0.9 else rng.choice(("L", "R", "LR"))
+
+        def walk(start, lo, hi, nmax, bias):
+            xs, y = [], start
+            for _k in range(rng.randint(0, nmax)):
+                y = y + rng.choice(bias)
+                xs.append(y)
+                if (y < lo or y > hi) and rng.random() < 0.8:
+                    break
+            return xs + [rng.randint(min(lo, hi) - 1, max(lo, hi) + 1) for _k in range(rng.randint(0, 1))]
+        jumps = []
+        for _ in range(max(3, (nj or 2))):
+            kick = rng.randint(m, max(m, c - 1)) if rng.random() < 0.93 else rng.randint(min(m, c) - 1, max(m, c) + 1)
+            jumps.append({"kick": kick, "back": walk(kick, m, c, 7, (-1, -1, 0, 1)), "forw": walk(kick, m, c, 7, (-1, 0, 1, 1))})
+        eb = walk(rng.randint(l, r), l, r, 9, (-1, -1, -1, 0, 1))
+        ef = walk(rng.randint(l, r), l, r, 9, (-1, 0, 1, 1, 1))
+        case = {"old": old, "oto": rng.randint(-5, 5), "ld": rng.random() < 0.2, "intf": intf, "cap": cap, "ML": ML, "nj": nj,
+                "sc": sc, "sce": sce, "xi": str(Fraction(rng.randint(0, 64), 64)), "raws": [rng.randrange(1000) for _ in range(4)],
+                "jumps": jumps, "eb": eb, "ef": ef}
+        if wf_pick_ok(case):
+            out.append(case)
+    return out
+
+
+def wf_tie(ctx, have_model):
+    """real wire_fencing with scripted engine/draws against Moves.wireFencing, plus the direct predicates"""
+    cases = gen_wf_cases(ctx)
+    real = [run_real_wf_scripted(c) for c in cases]
+    mod = ctx.driver([wf_model_line(c, res) for c, res in zip(cases, real)]) if have_model else None
+    n_rewrite = n_allow = 0
+    for k, c in enumerate(cases):
+        res = real[k]
+        ctx.count(1, branch="wf-scripted:" + str(res["status"]))
+        if have_model and res["line"] != mod[k]:
+            ctx.disagree({"fn": "wire_fencing", "variant": "repaired", "wfs": c, "idx": res["idx"]}, res["line"], mod[k])
+        for sig, what in wf_judge(wf_as_judged(c), res):
+            ctx.fail(sig, what, {"wfs": c, "code": res["line"]})
+        if res.get("attr_changed"):
+            n_rewrite += 1
+        if res.get("allowmax_set"):
+            n_allow += 1
+        if res.get("ran_out_ext") and res.get("acc"):
+            ctx.hit("observation:wf-accepted-although-an-extender-stream-ended-early (extender ignores the success flag)")
+        if res["status"] == "ACC":
+            ctx.distinct(("wfs", repr(sorted((a, repr(b)) for a, b in c.items()))))
+        if k % 1499 == 7:
+            ctx.sample({"wfs": c, "code": res["line"]})
+    # recorded observations (the property speaks of frames and files, which stay intact)
+    ctx.hit("observation:wf-rejected-with-NSG-overwrote-old-path.status/.generated (frames+files intact)", n_rewrite)
+    ctx.hit("observation:wf-set-allowmaxlength=True-on-the-shared-tis_set-dict", n_allow)
+
+
+def wf_as_judged(c):
+    d = dict(c)
+    d["n_jumps"] = c["nj"]
+    return d
 
 
 # --------------------------------------------------------------------------- add_to_path tie
@@ -941,12 +1168,18 @@ def run(ctx):
                 w = info["weights"]
                 if set(c["sc"]) != {"L", "R"} and not (w is not None and len(w) == 3 and w[1] != 0):
                     ctx.fail("C09:run_md:zero-weight-in-own-ensemble", f"weights {w}", rep)
-        # ---- wire fencing: property predicates only
+        # ---- wire fencing: scripted tie against the Lean model, then free-running predicate runs
+        wf_tie(ctx, have_model)
         wf_block(ctx)
         ctx.exhaustive = False
         ctx.assumptions += [
-            "wire_fencing is not modelled in Lean (stretch goal not reached): its membership / rejection predicates are "
-            "only evaluated on seeded random runs with a lattice-walk engine",
+            "wire_fencing: seeded random scripted cases against Moves.wireFencing (ξ of the segment pick restricted to values "
+            "for which the float comparison sum/n >= ξ equals the exact one), plus free-running lattice-walk runs judged by "
+            "the predicates only",
+            "OBSERVATION (not a failure: frames and files stay intact): a wire_fencing move rejected with NSG after the jumps "
+            "returns the OLD path object with its .status set to 'NSG' and .generated to ('wf', 9000, 0, len); every "
+            "wire_fencing call past the segment pick sets tis_set['allowmaxlength'] = True on the dict shared with the ensemble "
+            "(counts in the histogram under observation:*; model field WfOut.oldRewritten)",
             "order values are small integers (exact as floats)",
             "ξ values are restricted to floats for which int((L−2)/ξ) in float arithmetic equals the floor of the exact "
             "quotient (checked per value; boundary values (L−2)/n and both float neighbours are used when they pass)",
@@ -989,6 +1222,14 @@ def replay(ctx, obj):
             got = real_atp(*r["atp"])
             print("code:", got, "recorded:", r.get("code"))
             return 1 if (atp_bad(r["atp"], got) or atp_missed(r["atp"], got)) else 0
+        if "wfs" in r:
+            res = run_real_wf_scripted(r["wfs"])
+            bad = wf_judge(wf_as_judged(r["wfs"]), res)
+            print("wfs:", r["wfs"])
+            print("code:", res["line"])
+            for sig, what in bad:
+                print("FAILS:", sig, "-", what)
+            return 1 if bad else 0
         if "wfcase" in r:
             res = run_real_wf(r["wfcase"])
             bad = wf_judge(r["wfcase"], res)
